@@ -465,6 +465,9 @@ def random_runs(ctx, rep, spec, nseq, maxlen, rng, minlen=4, avoid_fraction=0.5)
         avoid = q is not None and rng.random() < avoid_fraction
         ops = []
         guard = 0
+        pro = getattr(spec, "prologue", None)
+        if pro is not None:
+            ops = [norm(o) for o in pro(rng) if not (avoid and q(o))]
         while len(ops) < length and guard < 20 * length:
             guard += 1
             op = norm(spec.random_op(rng))
